@@ -12,6 +12,9 @@ CONSTANTS
   MaxCalls = 12
   NDuties = 16
   SlotGaps = {1}
+  MaxOpen = 16
+  MaxInFlight = 16
+  InitCfgs <- AllCfgs
   LaterAllChoices = {{}}
   LaterVersions = {"deneb"}
   LaterOutcomes = {"full"}
